@@ -5,8 +5,7 @@ clean_prefixes, split_qname, build_qname), xsdata/utils/text.py `split`,
 relies on (`EventHandler.encode_data` → `converter.serialize` →
 `QNameConverter.serialize`).
 
-Modelled as the code is: `generate_prefix` writes `ns_map[prefix] = uri`
-without looking whether `prefix` is already a key.
+`generate_prefix` (since a086d5b) never rebinds a prefix that is already a key.
 -/
 import XsdataModel.Xml.Dict
 
@@ -55,11 +54,23 @@ def getEnum (env : NsEnv) (uri : Str) : Option Str :=
 
 def nsLit : Str := ['n', 's']
 
-/-- `generate_prefix(uri, ns_map)` → (prefix, mutated map) -/
+/-- the body of `while prefix is None or prefix in ns_map: prefix = f"ns{number}"; number += 1`
+once `prefix` has to be generated.  `fuel` bounds the iterations; `m.length + 1`
+candidates always contain a free one (`Proofs.MapInv.genLoop_fresh`), so the
+fuel-exhausted branch is never taken. -/
+def genLoop (m : NsMap) : Nat → Nat → Str
+  | 0, number => nsLit ++ natStr number
+  | fuel + 1, number =>
+    if dhas m (some (nsLit ++ natStr number)) then genLoop m fuel (number + 1)
+    else nsLit ++ natStr number
+
+/-- `generate_prefix(uri, ns_map)` → (prefix, mutated map): the standard prefix of
+the namespace if there is one and it is not a key yet, else the first `ns<k>`,
+`k = len(ns_map), len(ns_map)+1, …`, that is not a key -/
 def generatePrefix (env : NsEnv) (uri : Str) (m : NsMap) : Str × NsMap :=
   let p := match getEnum env uri with
-    | some p => p
-    | none => nsLit ++ natStr m.length
+    | some p => if dhas m (some p) then genLoop m (m.length + 1) m.length else p
+    | none => genLoop m (m.length + 1) m.length
   (p, dset m (some p) uri)
 
 /-- the `for prefix, ns in ns_map.items(): if ns == uri: return prefix` loop -/
